@@ -7,8 +7,10 @@ import (
 	"encoding/json"
 	"fmt"
 	"os"
+	"os/exec"
 	"path/filepath"
 	"sort"
+	"strings"
 
 	"verifharness/gen"
 )
@@ -40,9 +42,47 @@ func main() {
 	unitCases(r.Fork(), f.N(12, 120), f.N(6, 8))
 	sortCases(r.Fork(), f.N(400, 8000))
 	nDirs := f.N(4, 40)
+	child := os.Getenv("C29_CHILD") != ""
 	for i := 0; i < nDirs; i++ {
 		genE2E(r.Fork(), f.N(6, 15), 5)
+		if i == 1 {
+			if child {
+				// second process: print the digest of the first two directories and stop
+				fmt.Println(strings.Join(digest, "\n"))
+				return
+			}
+			crossProcess(f)
+		}
 	}
+}
+
+// crossProcess runs the same binary again (same seed, same tier) as a child that repeats the unit cases and the
+// first two end-to-end directories, and compares every (query, options, file) score bit for bit.
+func crossProcess(f gen.Flags) {
+	mine := append([]string(nil), digest...)
+	cmd := exec.Command(os.Args[0], "-out", filepath.Join(os.TempDir(), fmt.Sprintf("c29-child-%d.jsonl", os.Getpid())), "-tier", f.Tier, "-seed", fmt.Sprint(f.Seed))
+	cmd.Env = append(os.Environ(), "C29_CHILD=1")
+	cmd.Stderr = nil
+	out, err := cmd.Output()
+	os.Remove(filepath.Join(os.TempDir(), fmt.Sprintf("c29-child-%d.jsonl", os.Getpid())))
+	if err != nil {
+		w.Emit(gen.Case{Go: "second process failed: " + err.Error(), Key: "cross-process-child-failed", Class: "cross-process"})
+		return
+	}
+	theirs := strings.Split(strings.TrimSpace(string(out)), "\n")
+	cs := gen.Case{Class: "cross-process", Nontrivial: len(mine) > 0, Detail: gen.Detail(map[string]int{"scores_compared": len(mine)})}
+	if len(mine) != len(theirs) {
+		cs.Go, cs.Key = fmt.Sprintf("two processes returned %d vs %d file scores for the same searches", len(mine), len(theirs)), "cross-process/count-differs"
+	} else {
+		for i := range mine {
+			if mine[i] != theirs[i] {
+				cs.Go, cs.Key = fmt.Sprintf("two processes disagree: %s vs %s", mine[i], theirs[i]), "cross-process/score-differs"
+				break
+			}
+		}
+	}
+	w.Count("cross-process-scores", len(mine))
+	w.Emit(cs)
 }
 
 // replay re-runs an end-to-end case (repositories, query string, repeat count) from a replay file or a corpus witness.
